@@ -414,6 +414,14 @@ impl<CS: BbsCiphersuite> PoKSignature<BBSplus<CS>> {
 
         let api_id = CS::API_ID_BLIND;
 
+        // an index of a Signer-known message must be below L, otherwise a committed
+        // message (or the blind factor slot) could be presented as a Signer message
+        if disclosed_indexes.iter().any(|&i| i >= L) {
+            return Err(Error::PoKSVerificationError(
+                "disclosed index out of range".to_owned(),
+            ));
+        }
+
         let U = proof.m_cap.len();
         let M = (disclosed_indexes.len() + disclosed_commitment_indexes.len() + U)
             .checked_sub(1)
